@@ -55,12 +55,25 @@ Hooks == { NoHook,
            HookMsgs("u1", << [kind |-> "withdraw", to |-> "u2", denom |-> D1, amt |-> 1], [kind |-> "send", to |-> "u3", denom |-> D1, amt |-> 3] >>),
            HookMsgs("u1", << [kind |-> "withdraw", to |-> "u2", denom |-> D1, amt |-> 3] >>),
            HookMsgs("u1", << [kind |-> "withdraw", to |-> "u2", denom |-> N1, amt |-> 1] >>) }
+(* hooks signed by an executor that deliver another deposit from inside the hook: the deposit being processed again      *)
+(* (a no-op: its sequence is already consumed), the next sequence (processed on the branch), a sequence ahead (rejected, *)
+(* the hook fails), by a non-executor, to a blocked recipient (refund inside the hook), followed by a failing message.    *)
+DpM(seq, from, to, denom, amt, base) == [kind |-> "deposit", seq |-> seq, from |-> from, to |-> to, denom |-> denom, amt |-> amt, base |-> base, height |-> 5]
+HooksN(q) == { HookMsgs("e2", << DpM(q, "u2", "u1", D1, 2, "d1") >>),
+               HookMsgs("e2", << DpM(q + 1, "u2", "u3", D1, 1, "d1") >>),
+               HookMsgs("e2", << DpM(q + 2, "u2", "u3", D1, 1, "d1") >>),
+               HookMsgs("u1", << DpM(q + 1, "u2", "u3", D1, 1, "d1") >>),
+               HookMsgs("e2", << DpM(q + 1, "u2", "opchild", D1, 1, "d1") >>),
+               HookMsgs("e2", << DpM(q + 1, "u2", "u3", D1, 1, "d1"), [kind |-> "send", to |-> "panic", denom |-> D1, amt |-> 1] >>),
+               HookMsgs("e2", << DpM(q + 1, "u2", "u3", D1, 1, "d1"), DpM(q + 1, "u2", "u3", D1, 1, "d1"), DpM(q + 2, "u1", "u3", D2, 1, "d2") >>) }
 Faults == {"none", "mintErr", "mintPanic", "sendErr", "sendPanic"}
 DepositEvents(s) ==
   LET q == s.seqL1 IN
   (IF q <= 2 THEN
      {Dep("e1", q, "u2", to, D1, amt, "d1", h, "none") : to \in {"u1", "bad:notbech32", "opchild"}, amt \in {0, 2}, h \in Hooks}
      \cup {Dep("e1", q, "u2", "u1", D1, amt, "d1", h, f) : amt \in {0, 2}, h \in {NoHook, HookMsgs("u1", << [kind |-> "send", to |-> "u3", denom |-> D1, amt |-> 1] >>)}, f \in Faults}
+     \cup {Dep("e1", q, "u2", "u1", D1, 2, "d1", h, "none") : h \in HooksN(q)}
+     \cup {Dep("e1", q, "u2", "u1", D1, 0, "d1", HookMsgs("e2", << DpM(q + 1, "u2", "u3", D1, 1, "d1") >>), "mintErr")}
      \cup {Dep("e1", q, "bad:empty", "u1", D1, 1, "d1", NoHook, "none"), Dep("e1", q, "u2", "u1", "bad:denom", 1, "d1", NoHook, "none"),
            Dep("e1", q, "u2", "u1", D1, 1, "bad:denom", NoHook, "none"), Dep("e1", q, "u2", "u1", D1, 1, "d2", NoHook, "none"),
            Dep("e1", q, "u2", "opchild", D1, 1, "d2", NoHook, "none"), Dep("e1", q, "u2", "bad:notbech32", D1, 0, "d2", NoHook, "none"),
@@ -119,9 +132,11 @@ IsDeposit(o) == IsOK(o, "FinalizeTokenDeposit")
 Processed(o) == IsDeposit(o) /\ o.resp.result = "SUCCESS"
 
 (* C06 *)
+DepEvs(o) == IF Processed(o) THEN o.resp.depEvs ELSE << >>      \* every deposit the step announces as processed (its own last; deposits delivered by its hook before it)
 InOrderOnce(s, o, t) ==
-  /\ Processed(o) => (o.e.seq = s.seqL1 /\ t.seqL1 = s.seqL1 + 1)
-  /\ ~Processed(o) => t.seqL1 = s.seqL1
+  /\ Processed(o) => o.e.seq = s.seqL1
+  /\ t.seqL1 = s.seqL1 + Len(DepEvs(o))
+  /\ \A q \in s.seqL1..(t.seqL1 - 1) : Cardinality({i \in 1..Len(DepEvs(o)) : DepEvs(o)[i].seq = q}) = 1     \* each consumed sequence announced exactly once
 NoopIsNoop(s, o, t) == (IsDeposit(o) /\ o.resp.result = "NOOP") => (t = s /\ o.e.seq < s.seqL1)
 AheadRejected(s, o, t) == (o.e.type = "FinalizeTokenDeposit" /\ o.e.seq > s.seqL1) => ~o.ok
 OnlyExecutors(s, o, t) == IsDeposit(o) => IsExecutor(s, o.e.signer)
@@ -135,10 +150,9 @@ Outcome(s, o, t) ==
   Processed(o) =>
     LET e == o.e credited == o.resp.ev.success IN
     IF credited
-    THEN /\ t.supply[e.denom] = s.supply[e.denom] + e.amt - HookWithdrawn(o, e.denom)
-         /\ ~o.resp.wd.some /\ t.seqL2 = s.seqL2 + Len(o.resp.hookWds)
+    THEN /\ ~o.resp.wd.some /\ t.seqL2 = s.seqL2 + Len(o.resp.hookWds)
          /\ (e.hook.kind = "none" => t.bal = Credit(s.bal, e.to, e.denom, e.amt))
-    ELSE /\ t.supply = s.supply /\ t.bal = s.bal /\ o.resp.hookWds = << >>
+    ELSE /\ t.supply = s.supply /\ t.bal = s.bal /\ o.resp.hookWds = << >> /\ Len(o.resp.depEvs) = 1
          /\ o.resp.wd.some /\ o.resp.wd.seq = s.seqL2 /\ t.seqL2 = s.seqL2 + 1
          /\ o.resp.wd.from = e.to /\ o.resp.wd.to = e.from /\ o.resp.wd.amt = e.amt /\ o.resp.wd.denom = e.denom
 DepositNeverStalls(s, o, t) ==
@@ -167,11 +181,11 @@ SeqL2OnlyByWithdrawals(s, o, t) ==
   \* gap-free shared sequence: the step consumes exactly the sequences s.seqL2 .. of the withdrawals it announces
   /\ t.seqL2 = s.seqL2 + Len(Announced(o))
   /\ \A i \in 1..Len(Announced(o)) : Announced(o)[i].seq = s.seqL2 + i - 1
+DepSum(o, d, succ) == SumSeq([i \in 1..Len(DepEvs(o)) |-> IF DepEvs(o)[i].denom = d /\ DepEvs(o)[i].success = succ THEN DepEvs(o)[i].amt ELSE 0], 1)
+WdSum(o, d) == SumSeq([i \in 1..Len(Announced(o)) |-> IF Announced(o)[i].denom = d THEN Announced(o)[i].amt ELSE 0], 1)
 BridgedSupplyDelta(s, o, t) ==
-  \A d \in {D1, D2} :
-     t.supply[d] - s.supply[d] =
-        (IF Processed(o) /\ o.e.denom = d /\ o.resp.ev.success THEN o.e.amt ELSE 0)
-      - SumSeq([i \in 1..Len(Announced(o)) |-> IF Announced(o)[i].denom = d /\ ~(Processed(o) /\ o.resp.wd.some) THEN Announced(o)[i].amt ELSE 0], 1)
+  \* supply = credited deposits - recorded withdrawals, where every deposit that was not credited is matched by exactly one refund withdrawal of its amount
+  \A d \in {D1, D2} : t.supply[d] - s.supply[d] = DepSum(o, d, TRUE) - (WdSum(o, d) - DepSum(o, d, FALSE))
 NoEffectOnReject(s, o, t) == ~o.ok => t = s
 
 (* C12 (L2 part) *)
